@@ -70,6 +70,8 @@ type Obligation struct {
 	Output  string
 	File    string
 	Expect  string // "" normal (expect unsat); "sat" for vacuity covers
+	Block   int    // block the obligation belongs to (-1: none; all facts are kept)
+	Blocks  []int  // for merged obligations (loop back edges): all source blocks
 }
 
 // Ctx holds everything generated while verifying one function.
@@ -83,6 +85,9 @@ type Ctx struct {
 	decls    []string
 	declared map[string]bool
 	facts    []string
+	factBlk  []int // block index where each fact was generated (-1: function-global)
+	curBlk   int
+	anc      map[int]map[int]bool // block -> set of blocks that can reach it (forward CFG), incl. itself
 	obls     []*Obligation
 	compSort map[string]Sort
 	nfresh   int
@@ -115,6 +120,7 @@ func newCtx(P *Program, CS *Contracts, fn *ssa.Function, con *Contract) *Ctx {
 		specDone: map[string]bool{}, axiomDone: map[string]bool{}, globals: map[string]bool{}, fnConsts: map[string]bool{},
 		assumed: map[string]bool{}, axiomsUsed: map[string]bool{}, oblNames: map[string]int{}, tracks: map[string]*trackInfo{}}
 	c.bv = con != nil && con.Arith == "bv"
+	c.curBlk = -1
 	c.prelude()
 	return c
 }
@@ -198,6 +204,14 @@ func (c *Ctx) fact(f string) {
 		return
 	}
 	c.facts = append(c.facts, f)
+	c.factBlk = append(c.factBlk, c.curBlk)
+}
+
+// defFact records an unguarded definition of a fresh constant; it may be created lazily while
+// another block is being executed, so it is never sliced away.
+func (c *Ctx) defFact(f string) {
+	c.facts = append(c.facts, f)
+	c.factBlk = append(c.factBlk, -1)
 }
 
 func (c *Ctx) factUnder(pc, f string) {
@@ -224,7 +238,7 @@ func (c *Ctx) oblige(kind, name, pc, goal, descr, pos string) *Obligation {
 	if n := c.oblNames[full]; n > 1 {
 		full = fmt.Sprintf("%s~%d", full, n)
 	}
-	o := &Obligation{Name: full, Kind: kind, Func: c.fnName(), PC: pc, Goal: goal, NFacts: len(c.facts), NDecls: len(c.decls), Descr: descr, Pos: pos}
+	o := &Obligation{Block: c.curBlk, Name: full, Kind: kind, Func: c.fnName(), PC: pc, Goal: goal, NFacts: len(c.facts), NDecls: len(c.decls), Descr: descr, Pos: pos}
 	c.obls = append(c.obls, o)
 	return o
 }
